@@ -1,1 +1,656 @@
-//! placeholder
+//! `sched` — all schedules of one build/clean with at most c preemptions (DESIGN 4.2).
+//!
+//! A case = rules + a pre-history (run under the serial schedule) + the operation
+//! under test.  Every execution runs the operation on a deep clone of the prepared
+//! state with MemSystem's scheduling points on.  Exploration is stateless: a work
+//! item is a choice prefix; after running it to completion with default choices,
+//! one child is generated for every later choice point and every alternative whose
+//! preemption count stays within the bound.
+use std::cell::RefCell;
+use std::collections::{BTreeMap, BTreeSet};
+use std::rc::Rc;
+use std::sync::atomic::{AtomicBool, AtomicU64, Ordering};
+use std::sync::{Arc, Condvar, Mutex};
+use std::time::Instant;
+
+use serde_json::{json, Value};
+
+use crate::hist::{self, apply, check_build, check_clean, expected_verdict, BuildObs, CleanObs, Ctx, Finding, Op, Oracles, Scenario, State, Stats};
+use crate::memsys::{Bytes, ClockModel, CmdMonitor, Fs};
+use crate::model::*;
+use crate::report::Violation;
+use crate::sched::{self, Job, Outcome, Trace};
+use crate::world::*;
+
+#[derive(Clone)]
+pub struct SchedCase
+{
+    pub name: String,
+    pub sc: Scenario,
+    pub pre: Vec<Op>,
+    pub op: Op,
+}
+
+#[derive(Default)]
+pub struct CaseResult
+{
+    /// complete executions
+    pub schedules: u64,
+
+    pub max_points: usize,
+    pub max_steps: usize,
+    /// outcome -> (count, example choices)
+    pub outcomes: BTreeMap<String, (u64, Vec<u8>)>,
+    pub end_states: BTreeSet<[u8; 16]>,
+    pub findings: Vec<(Vec<u8>, Finding)>,
+    pub failures: Vec<(Vec<u8>, String)>,
+    pub harness_errors: Vec<String>,
+    pub bound_completed: Option<usize>,
+    pub per_bound: Vec<(usize, u64)>,
+    pub cap_hit: bool,
+    pub commands: u64,
+}
+
+/// Prepare the state the operation starts from: initial state + pre-history, serially.
+pub fn prepare(case: &SchedCase) -> Result<State, String>
+{
+    let sc = case.sc.clone();
+    let pre = case.pre.clone();
+    let (r, outcome) = sched::run_once(vec![], move ||
+    {
+        let or = Oracles::default();
+        let ctx = Ctx { sc: &sc, clock: ClockModel::Strict, or: &or };
+        let mut st = hist::initial_state(&sc, false);
+        let mut stats = Stats::default();
+        let mut f = vec![];
+        for op in &pre
+        {
+            st = apply(&ctx, &st, op, &mut stats, &mut f);
+        }
+        st
+    });
+    match (r, outcome.failure)
+    {
+        (Some(st), None) => Ok(st),
+        (_, Some(f)) => Err(f),
+        _ => Err("no state".to_string()),
+    }
+}
+
+/// paths on which System calls are scheduling points: everything under the cache, and
+/// every target that is also a source of another rule
+pub fn shared_paths(rules: &RuleSet) -> Arc<BTreeSet<String>>
+{
+    let g = Graph::new(rules);
+    let mut s = BTreeSet::new();
+    for r in rules
+    {
+        for src in &r.sources
+        {
+            if g.producer.contains_key(src)
+            {
+                s.insert(src.clone());
+            }
+        }
+    }
+    Arc::new(s)
+}
+
+/// C03 monitor: at the instant a command starts, every declared source has its final content.
+pub fn c03_monitor(rules: &RuleSet, fs: &Fs) -> CmdMonitor
+{
+    let ev = eval(rules, fs);
+    let g = Graph::new(rules);
+    let mut expect: BTreeMap<String, Vec<(String, Option<Bytes>)>> = BTreeMap::new();
+    for (i, r) in rules.iter().enumerate()
+    {
+        let _ = i;
+        let mut v = vec![];
+        for s in r.sorted_sources()
+        {
+            if g.producer.contains_key(&s)
+            {
+                v.push((s.clone(), ev.values.get(&s).map(|x| x.0.clone())));
+            }
+            else
+            {
+                v.push((s.clone(), fs.read(&s)));
+            }
+        }
+        expect.insert(r.script_text(), v);
+    }
+    Arc::new(move |now: &Fs, script: &str|
+    {
+        let v = expect.get(script)?;
+        for (path, want) in v
+        {
+            let got = now.read(path);
+            match want
+            {
+                None => return Some(format!("command {:?} started although its source {} cannot be produced in this build", script, path)),
+                Some(w) =>
+                {
+                    if got.as_ref() != Some(w)
+                    {
+                        return Some(format!("command {:?} started while source {} holds {:?} instead of its final content {:?}",
+                            script, path, got.as_ref().map(show), show(w)));
+                    }
+                },
+            }
+        }
+        None
+    })
+}
+
+struct ExecResult
+{
+    outcome_key: String,
+    end_key: [u8; 16],
+    findings: Vec<Finding>,
+    harness_errors: Vec<String>,
+    commands: u64,
+}
+
+struct Queue
+{
+    stack: Vec<Vec<u8>>,
+    /// DPOR: prefixes already scheduled (the same backtrack point is found by many executions)
+    known: std::collections::HashSet<Vec<u8>>,
+    inflight: usize,
+}
+
+pub struct ExploreCfg
+{
+    /// dynamic partial-order reduction (unbounded) instead of plain enumeration
+    pub por: bool,
+    /// preemption bound (None = unbounded)
+    pub bound: Option<usize>,
+    pub threads: usize,
+    pub deadline: Instant,
+    pub max_schedules: u64,
+    pub oracles: Oracles,
+    pub c03: bool,
+    pub c04_history: bool,
+}
+
+fn run_case_op(case: &SchedCase, prep: &State, rc: &RunCfg, or: &Oracles, c04_history: bool) -> ExecResult
+{
+    let rules = &case.sc.variants[prep.variant];
+    let mut findings = vec![];
+    let mut stats = Stats::default();
+    let mut harness_errors = vec![];
+    let rr = match &case.op
+    {
+        Op::Build { goal } =>
+        {
+            let rr = run_build(&prep.fs, rc, goal);
+            let empty = BTreeMap::new();
+            let obs = BuildObs { sc: &case.sc, rules, pre: &prep.fs, goal, rr: &rr, ghost: &empty };
+            check_build(&obs, or, &mut stats, &mut findings);
+            if c04_history
+            {
+                check_failed_not_recorded(rules, &prep.fs, goal, &rr, &mut findings);
+            }
+            rr
+        },
+        Op::Clean { goal } =>
+        {
+            let rr = run_clean(&prep.fs, rc, goal);
+            check_clean(&CleanObs { sc: &case.sc, rules, pre: &prep.fs, goal, rr: &rr }, or, &mut stats, &mut findings);
+            rr
+        },
+        other => panic!("sched case op must be build or clean, got {:?}", other),
+    };
+    for v in &rr.log.monitor_violations
+    {
+        findings.push(Finding { property: "C03", what: "a command started before one of its sources was final".into(), detail: v.clone() });
+    }
+    if let Verdict::Other(s) = &rr.verdict
+    {
+        if s.contains("SenderError") || s.contains("ReceiverError") || s.contains("Weird")
+        {
+            findings.push(Finding { property: "C05", what: format!("internal channel/join error returned: {}", crate::cli::first_line(s)), detail: s.clone() });
+        }
+    }
+    // private-path discipline (soundness of not yielding on private paths)
+    for (p, (mutated, tasks)) in &rr.log.access
+    {
+        let workers: Vec<&usize> = tasks.iter().filter(|t| **t != 0 && **t != crate::memsys::NO_TASK).collect();
+        if *mutated && workers.len() > 1
+        {
+            harness_errors.push(format!("path {} is treated as private but was touched by tasks {:?}", p, workers));
+        }
+    }
+    let outcome_key = format!("{:?} | {:?}", rr.verdict, workspace_view(&rr.fs));
+    ExecResult { outcome_key, end_key: canon_key(&rr.fs, &[]), findings, harness_errors, commands: rr.log.cmds.len() as u64 }
+}
+
+/// C04: nothing is recorded for a failed execution
+fn check_failed_not_recorded(rules: &RuleSet, pre: &Fs, goal: &Option<String>, rr: &RunResult, out: &mut Vec<Finding>)
+{
+    let (_v, scope, ev) = match expected_verdict(rules, pre, goal) { Some(x) => x, None => return };
+    let post_hist = decode_history(&rr.fs);
+    let pre_hist = decode_history(pre);
+    for r in &scope
+    {
+        match &ev.status[*r]
+        {
+            RuleStatus::CommandErrored | RuleStatus::NotGenerated(_) | RuleStatus::Cancelled =>
+            {
+                let rule = &rules[*r];
+                let ticket = crate::rule::Rule::new(rule.targets.clone(), rule.sources.clone(), rule.command_lines()).get_ticket().human_readable();
+                let before = match pre_hist.get(&ticket) { Some(Some(m)) => m.len(), _ => 0 };
+                let after = match post_hist.get(&ticket) { Some(Some(m)) => m.len(), Some(None) => usize::MAX, None => 0 };
+                if after > before
+                {
+                    out.push(Finding { property: "C04", what: format!("something was recorded for failed or cancelled rule {:?}", rule.targets),
+                        detail: format!("history entries {} -> {}", before, after) });
+                }
+            },
+            RuleStatus::Ok => {},
+        }
+    }
+}
+
+/// Explore all schedules of `case` with at most `cfg.bound` preemptions.
+pub fn explore(case: &SchedCase, prep: &State, cfg: &ExploreCfg) -> CaseResult
+{
+    let rules = case.sc.variants[prep.variant].clone();
+    let monitor = if cfg.c03 { Some(c03_monitor(&rules, &prep.fs)) } else { None };
+    let rc = RunCfg
+    {
+        clock: ClockModel::Strict,
+        yields: true,
+        shared: Arc::new(BTreeSet::new()),
+        snapshots: false,
+        track_access: false,
+        monitor,
+    };
+    let por = cfg.por;
+    let queue = Arc::new((Mutex::new(Queue { stack: vec![vec![]], known: Default::default(), inflight: 0 }), Condvar::new()));
+    let result = Arc::new(Mutex::new(CaseResult::default()));
+    let stop = Arc::new(AtomicBool::new(false));
+    let count = Arc::new(AtomicU64::new(0));
+    let mut handles = vec![];
+    for _ in 0..cfg.threads.max(1)
+    {
+        let queue = queue.clone();
+        let result = result.clone();
+        let stop = stop.clone();
+        let count = count.clone();
+        let case = case.clone();
+        let prep = prep.clone();
+        let rc = rc.clone();
+        let or = cfg.oracles.clone();
+        let bound = cfg.bound;
+        let deadline = cfg.deadline;
+        let max_schedules = cfg.max_schedules;
+        let c04h = cfg.c04_history;
+        handles.push(std::thread::Builder::new().stack_size(16 << 20).spawn(move ||
+        {
+            let case = Arc::new(case);
+            let prep = Arc::new(prep);
+            let slot: Rc<RefCell<Option<ExecResult>>> = Rc::new(RefCell::new(None));
+            let mut local = CaseResult::default();
+            let local_cell: Rc<RefCell<CaseResult>> = Rc::new(RefCell::new(CaseResult::default()));
+            let inflight_here = Rc::new(RefCell::new(false));
+            {
+                let slot = slot.clone();
+                let local_cell = local_cell.clone();
+                let queue = queue.clone();
+                let inflight_here = inflight_here.clone();
+                sched::pump(move |prev: Option<Outcome>|
+                {
+                    if let Some(o) = prev
+                    {
+                        let mut loc = local_cell.borrow_mut();
+                        loc.schedules += 1;
+                        loc.max_points = loc.max_points.max(o.trace.choices.len());
+                        loc.max_steps = loc.max_steps.max(o.trace.steps);
+                        let res = slot.borrow_mut().take();
+                        let children;
+                        match (&o.failure, res)
+                        {
+                            (None, Some(res)) =>
+                            {
+                                let e = loc.outcomes.entry(res.outcome_key).or_insert((0, o.trace.choices.clone()));
+                                e.0 += 1;
+                                loc.end_states.insert(res.end_key);
+                                loc.commands += res.commands;
+                                for f in res.findings
+                                {
+                                    if loc.findings.len() < 200 { loc.findings.push((o.trace.choices.clone(), f)); }
+                                }
+                                loc.harness_errors.extend(res.harness_errors);
+                            },
+                            (Some(msg), _) =>
+                            {
+                                if msg.contains(sched::DIVERGENCE)
+                                {
+                                    loc.harness_errors.push(msg.clone());
+                                }
+                                else if loc.failures.len() < 200
+                                {
+                                    loc.failures.push((o.trace.choices.clone(), msg.clone()));
+                                }
+                                let e = loc.outcomes.entry(format!("FAILED: {}", crate::cli::first_line(msg))).or_insert((0, o.trace.choices.clone()));
+                                e.0 += 1;
+                            },
+                            (None, None) => loc.harness_errors.push("execution finished without a result".to_string()),
+                        }
+                        // children: deviate at every later choice point (also after a failure: the
+                        // points that were reached are still valid branching points)
+                        let start = PREFIX_LEN.with(|p| *p.borrow());
+                        children = if por { sched::children_dpor(&o.trace) } else { sched::children_plain(&o.trace, start, bound) };
+                        let (m, cv) = &*queue;
+                        let mut q = m.lock().unwrap();
+                        if por
+                        {
+                            for c in children
+                            {
+                                if q.known.insert(c.clone()) { q.stack.push(c); }
+                            }
+                        }
+                        else
+                        {
+                            q.stack.extend(children);
+                        }
+                        q.inflight -= 1;
+                        *inflight_here.borrow_mut() = false;
+                        cv.notify_all();
+                    }
+                    // next work item
+                    let prefix =
+                    {
+                        let (m, cv) = &*queue;
+                        let mut q = m.lock().unwrap();
+                        loop
+                        {
+                            if stop.load(Ordering::SeqCst)
+                            {
+                                return None;
+                            }
+                            if Instant::now() >= deadline || count.load(Ordering::SeqCst) >= max_schedules
+                            {
+                                stop.store(true, Ordering::SeqCst);
+                                cv.notify_all();
+                                return None;
+                            }
+                            if let Some(p) = q.stack.pop()
+                            {
+                                q.inflight += 1;
+                                break p;
+                            }
+                            if q.inflight == 0
+                            {
+                                cv.notify_all();
+                                return None;
+                            }
+                            let (g, _t) = cv.wait_timeout(q, std::time::Duration::from_millis(50)).unwrap();
+                            q = g;
+                        }
+                    };
+                    count.fetch_add(1, Ordering::SeqCst);
+                    *inflight_here.borrow_mut() = true;
+                    PREFIX_LEN.with(|p| *p.borrow_mut() = prefix.len());
+                    let case = case.clone();
+                    let prep = prep.clone();
+                    let rc = rc.clone();
+                    let or = or.clone();
+                    let slot = slot.clone();
+                    Some(Job
+                    {
+                        prefix,
+                        full: por,
+                        body: Box::new(move ||
+                        {
+                            let res = run_case_op(&case, &prep, &rc, &or, c04h);
+                            *slot.borrow_mut() = Some(res);
+                        }),
+                    })
+                });
+            }
+            std::mem::swap(&mut local, &mut *local_cell.borrow_mut());
+            let mut r = result.lock().unwrap();
+            r.schedules += local.schedules;
+
+            r.max_points = r.max_points.max(local.max_points);
+            r.max_steps = r.max_steps.max(local.max_steps);
+            r.commands += local.commands;
+            for (k, (n, ex)) in local.outcomes
+            {
+                let e = r.outcomes.entry(k).or_insert((0, ex));
+                e.0 += n;
+            }
+            r.end_states.extend(local.end_states);
+            r.findings.extend(local.findings);
+            r.failures.extend(local.failures);
+            r.harness_errors.extend(local.harness_errors);
+        }).unwrap());
+    }
+    for h in handles
+    {
+        if h.join().is_err()
+        {
+            result.lock().unwrap().harness_errors.push("explorer worker panicked".to_string());
+        }
+    }
+    let mut r = std::mem::take(&mut *result.lock().unwrap());
+    r.cap_hit = stop.load(Ordering::SeqCst);
+    r
+}
+
+thread_local! {
+    static PREFIX_LEN: RefCell<usize> = RefCell::new(0);
+}
+
+/// Run one schedule (choice list) of a case, for replay.
+pub fn run_schedule(case: &SchedCase, prep: &State, or: &Oracles, c03: bool, choices: Vec<u8>) -> (Option<(String, Vec<Finding>)>, Outcome)
+{
+    let rules = case.sc.variants[prep.variant].clone();
+    let monitor = if c03 { Some(c03_monitor(&rules, &prep.fs)) } else { None };
+    let rc = RunCfg { clock: ClockModel::Strict, yields: true, shared: Arc::new(BTreeSet::new()), snapshots: false, track_access: false, monitor };
+    let case = case.clone();
+    let prep = prep.clone();
+    let or = or.clone();
+    sched::run_once(choices, move ||
+    {
+        let res = run_case_op(&case, &prep, &rc, &or, true);
+        (res.outcome_key, res.findings)
+    })
+}
+
+// ---------------------------------------------------------------------------
+// Case corpus
+
+fn b(goal: Option<&str>) -> Op { Op::Build { goal: goal.map(|s| s.to_string()) } }
+fn c(goal: Option<&str>) -> Op { Op::Clean { goal: goal.map(|s| s.to_string()) } }
+fn e(path: &str, val: usize) -> Op { Op::Edit { path: path.to_string(), val } }
+
+fn mk(name: &str, sc: &Scenario, pre: Vec<Op>, op: Op) -> SchedCase
+{
+    SchedCase { name: name.to_string(), sc: sc.clone(), pre, op }
+}
+
+fn xy() -> Vec<Bytes> { vec![crate::memsys::bytes("X"), crate::memsys::bytes("Y")] }
+
+fn scn(name: &str, rules: RuleSet, leaves: &[&str]) -> Scenario
+{
+    Scenario
+    {
+        name: name.to_string(),
+        variants: vec![rules],
+        edits: leaves.iter().map(|l| (l.to_string(), xy())).collect(),
+        goals: vec![None],
+        tamper: vec![],
+        ops: hist::OpKinds::basic(),
+        nondeterministic: false,
+    }
+}
+
+pub fn sc_single() -> Scenario { scn("single", vec![cat_rule("t", &["s"])], &["s"]) }
+pub fn sc_chain2() -> Scenario { scn("chain2", vec![cat_rule("m", &["s"]), cat_rule("t", &["m", "u"])], &["s", "u"]) }
+pub fn sc_chain3() -> Scenario { scn("chain3", vec![cat_rule("a", &["s"]), cat_rule("b", &["a"]), cat_rule("c", &["b", "u"])], &["s", "u"]) }
+pub fn sc_diamond() -> Scenario { scn("diamond", vec![cat_rule("top", &["l", "r"]), cat_rule("l", &["s"]), cat_rule("r", &["s", "u"])], &["s", "u"]) }
+pub fn sc_fanin() -> Scenario { scn("fanin", vec![cat_rule("t", &["s", "u"])], &["s", "u"]) }
+pub fn sc_fanout() -> Scenario { scn("fanout", vec![cat_rule("m", &["s"]), cat_rule("d1", &["m"]), cat_rule("d2", &["m", "u"])], &["s", "u"]) }
+pub fn sc_multi() -> Scenario
+{
+    scn("multi", vec![multi_rule(&["t1", "t2"], &["s1", "s2"], &[&["s1"], &["s2"]]), cat_rule("c1", &["t1"]), cat_rule("c2", &["t2"])], &["s1", "s2"])
+}
+pub fn sc_two_comp() -> Scenario { scn("twocomp", vec![cat_rule("a", &["s"]), cat_rule("b", &["a"]), cat_rule("p", &["u"])], &["s", "u"]) }
+pub fn sc_twins() -> Scenario { scn("twins", vec![cat_rule("a", &["s"]), cat_rule("b", &["s"])], &["s"]) }
+pub fn sc_twins3() -> Scenario { scn("twins3", vec![cat_rule("a", &["s"]), cat_rule("b", &["s"]), cat_rule("c", &["a", "b"])], &["s"]) }
+
+/// diamond + independent sibling, with rule `i` replaced by a failing / non-producing one
+pub fn sc_fail(kind: &str, which: &[usize]) -> Scenario
+{
+    let mut rules = vec![cat_rule("top", &["l", "r"]), cat_rule("l", &["s"]), cat_rule("r", &["s", "u"]), cat_rule("g", &["u"])];
+    for i in which
+    {
+        let t = rules[*i].targets[0].clone();
+        let srcs: Vec<&str> = rules[*i].sources.iter().map(|x| x.as_str()).collect();
+        rules[*i] = if kind == "noout" { noout_rule(&t, &srcs) } else { fail_rule(&t, &srcs) };
+    }
+    let mut s = scn(&format!("fail-{}-{:?}", kind, which), rules, &["s", "u"]);
+    s.ops.rm_leaf = true;
+    s
+}
+
+pub fn success_cases(tier: &str) -> Vec<SchedCase>
+{
+    let mut v = vec![];
+    let single = sc_single();
+    let chain2 = sc_chain2();
+    let chain3 = sc_chain3();
+    let diamond = sc_diamond();
+    let fanin = sc_fanin();
+    let fanout = sc_fanout();
+    let multi = sc_multi();
+    let two = sc_two_comp();
+    let twins = sc_twins();
+    let twins3 = sc_twins3();
+    v.push(mk("single/fresh/build", &single, vec![], b(None)));
+    v.push(mk("chain2/fresh/build", &chain2, vec![], b(None)));
+    v.push(mk("chain2/built+edit/build", &chain2, vec![b(None), e("s", 1)], b(None)));
+    v.push(mk("chain2/cleaned/build", &chain2, vec![b(None), c(None)], b(None)));
+    v.push(mk("chain2/built/clean", &chain2, vec![b(None)], c(None)));
+    v.push(mk("diamond/fresh/build", &diamond, vec![], b(None)));
+    v.push(mk("diamond/built+edit/build", &diamond, vec![b(None), e("s", 1)], b(None)));
+    v.push(mk("diamond/reverted/build", &diamond, vec![b(None), e("s", 1), b(None), e("s", 0)], b(None)));
+    v.push(mk("diamond/cleaned/build", &diamond, vec![b(None), c(None)], b(None)));
+    v.push(mk("diamond/built/clean", &diamond, vec![b(None)], c(None)));
+    v.push(mk("fanout/fresh/build", &fanout, vec![], b(None)));
+    v.push(mk("fanout/cleaned/build", &fanout, vec![b(None), c(None)], b(None)));
+    v.push(mk("multi/fresh/build", &multi, vec![], b(None)));
+    v.push(mk("multi/built+edit2/build", &multi, vec![b(None), e("s2", 1)], b(None)));
+    v.push(mk("multi/cleaned/build", &multi, vec![b(None), c(None)], b(None)));
+    v.push(mk("multi/goal-c2/build", &multi, vec![], b(Some("c2"))));
+    v.push(mk("twins/fresh/build", &twins, vec![], b(None)));
+    v.push(mk("twins/cleaned/build", &twins, vec![b(None), c(None)], b(None)));
+    v.push(mk("twins/reverted/build", &twins, vec![b(None), e("s", 1), b(None), e("s", 0)], b(None)));
+    v.push(mk("twins/built/clean", &twins, vec![b(None)], c(None)));
+    v.push(mk("twins3/cleaned/build", &twins3, vec![b(None), c(None)], b(None)));
+    v.push(mk("twocomp/fresh/build", &two, vec![], b(None)));
+    v.push(mk("twocomp/goal-b/build", &two, vec![b(None), e("s", 1)], b(Some("b"))));
+    v.push(mk("fanin/fresh/build", &fanin, vec![], b(None)));
+    if tier == "thorough"
+    {
+        v.push(mk("chain3/fresh/build", &chain3, vec![], b(None)));
+        v.push(mk("chain3/cleaned/build", &chain3, vec![b(None), c(None)], b(None)));
+        v.push(mk("chain3/built+edit/build", &chain3, vec![b(None), e("s", 1)], b(None)));
+        v.push(mk("twins3/reverted/build", &twins3, vec![b(None), e("s", 1), b(None), e("s", 0)], b(None)));
+        v.push(mk("twins3/fresh/build", &twins3, vec![], b(None)));
+        v.push(mk("diamond/tampered/build", &diamond, vec![b(None), Op::Tamper { path: "l".into() }], b(None)));
+        v.push(mk("multi/tampered/build", &multi, vec![b(None), Op::Tamper { path: "t2".into() }], b(None)));
+        v.push(mk("multi/built/clean", &multi, vec![b(None)], c(None)));
+        v.push(mk("fanout/reverted/build", &fanout, vec![b(None), e("s", 1), b(None), e("s", 0)], b(None)));
+    }
+    v
+}
+
+pub fn failure_cases(tier: &str) -> Vec<SchedCase>
+{
+    let mut v = vec![];
+    // every single rule failing
+    for i in 0..4
+    {
+        let sc = sc_fail("false", &[i]);
+        v.push(mk(&format!("fail/rule{}/fresh/build", i), &sc, vec![], b(None)));
+    }
+    // both middles
+    let both = sc_fail("false", &[1, 2]);
+    v.push(mk("fail/both-middles/fresh/build", &both, vec![], b(None)));
+    // non-producing rule
+    let no = sc_fail("noout", &[1]);
+    v.push(mk("fail/noout-l/fresh/build", &no, vec![], b(None)));
+    // missing leaves in the healthy graph
+    let healthy = sc_fail("false", &[]);
+    v.push(mk("missing/s/fresh/build", &healthy, vec![Op::RmLeaf { path: "s".into() }], b(None)));
+    v.push(mk("missing/u/fresh/build", &healthy, vec![Op::RmLeaf { path: "u".into() }], b(None)));
+    v.push(mk("missing/s+u/fresh/build", &healthy, vec![Op::RmLeaf { path: "s".into() }, Op::RmLeaf { path: "u".into() }], b(None)));
+    // failing rule after a successful build of the healthy graph is covered by hist S8 (rules switch)
+    v.push(mk("missing/s/built/build", &healthy, vec![b(None), Op::RmLeaf { path: "s".into() }], b(None)));
+    if tier == "thorough"
+    {
+        let no2 = sc_fail("noout", &[0]);
+        v.push(mk("fail/noout-top/fresh/build", &no2, vec![], b(None)));
+        let f3 = sc_fail("false", &[1, 3]);
+        v.push(mk("fail/l+g/fresh/build", &f3, vec![], b(None)));
+        v.push(mk("fail/rule1/goal-top/build", &sc_fail("false", &[1]), vec![], b(Some("top"))));
+        v.push(mk("fail/rule1/goal-g/build", &sc_fail("false", &[1]), vec![], b(Some("g"))));
+        v.push(mk("missing/u/built/clean", &healthy, vec![b(None), Op::RmLeaf { path: "u".into() }], c(None)));
+    }
+    v
+}
+
+pub fn case_by_name(name: &str) -> Option<SchedCase>
+{
+    let mut all = success_cases("thorough");
+    all.extend(failure_cases("thorough"));
+    all.into_iter().find(|c| c.name == name)
+}
+
+pub fn finding_signature(case: &SchedCase, f: &Finding) -> String
+{
+    format!("{}:sched:{}:{}", f.property, case.name, f.what)
+}
+
+pub fn to_violation(case: &SchedCase, choices: &[u8], f: &Finding, c03: bool) -> Violation
+{
+    Violation
+    {
+        property: f.property.to_string(),
+        signature: finding_signature(case, f),
+        summary: format!("{} [case {}, schedule {:?}]: {}", f.what, case.name, choices, f.detail),
+        replay: json!({"engine": "sched", "case": case.name, "choices": choices, "what": f.what, "c03": c03}),
+    }
+}
+
+pub fn outcomes_json(r: &CaseResult) -> Value
+{
+    json!(r.outcomes.iter().map(|(k, (n, ex))| json!({"outcome": k, "schedules": n, "example_choices": ex})).collect::<Vec<_>>())
+}
+
+pub fn debug_trace(case: &SchedCase, prep: &State)
+{
+    let rc = RunCfg { clock: ClockModel::Strict, yields: true, shared: Arc::new(BTreeSet::new()), snapshots: false, track_access: false, monitor: None };
+    let case2 = case.clone();
+    let prep2 = prep.clone();
+    struct D { job: Option<Job>, out: Option<Outcome> }
+    impl sched::Driver for D
+    {
+        fn next_job(&mut self) -> Option<Job> { self.job.take() }
+        fn done(&mut self, o: Outcome) { self.out = Some(o); }
+    }
+    let d = D { job: Some(Job { prefix: vec![], full: true, body: Box::new(move || { let _ = run_case_op(&case2, &prep2, &rc, &Oracles::default(), false); }) }), out: None };
+    let d = sched::run_jobs(d);
+    let o = d.out.unwrap();
+    for (i, s) in o.trace.steps_full.iter().enumerate()
+    {
+        println!("{:3} task {} {:?} options {:?} choice {:?}", i, s.task, s.op, s.options, s.choice);
+    }
+    let ch = sched::children_dpor(&o.trace);
+    println!("{} children", ch.len());
+    for c in ch.iter().take(40) { println!("  {:?}", c); }
+}
